@@ -43,6 +43,10 @@ Inductive SimpleB : bool -> bool -> stmt -> Prop :=
     plain_args args (rd_params d) = true -> SimpleB inl inr (SCall f args b)
 | B_calluse inl inr u f args d : builtin_params f builtin_table = None -> find_rdef rt f = Some d ->
     plain_args args (rd_params d) = true -> must_return (rd_body d) = true -> use_ok u = true -> SimpleB inl inr (use_stmt u (RCall f args))
+| B_builtinuse inl inr u f args ps : builtin_params f builtin_table = Some ps -> plain_args args ps = true -> use_ok u = true ->
+    SimpleB inl inr (use_stmt u (RCall f args))
+| B_builtinret inl f args ps : builtin_params f builtin_table = Some ps -> plain_args args ps = true ->
+    SimpleB inl true (SReturn (Some (RCall f args)))
 | B_callret inl f args d : builtin_params f builtin_table = None -> find_rdef rt f = Some d ->
     plain_args args (rd_params d) = true -> must_return (rd_body d) = true -> SimpleB inl true (SReturn (Some (RCall f args)))
 | B_if inl inr c a : plain_rval mt c = true -> SimpleB inl inr a -> SimpleB inl inr (SIf c a None)
@@ -156,6 +160,41 @@ Lemma c_retcall after f args d : builtin_params f builtin_table = None -> find_r
   c_stmt rt mt false after (SReturn (Some (RCall f args))) = call_code d f args ++ [I0 OC_RETURN].
 Proof. intros Hb Hf. rewrite c_return, (c_rcall f args d _ Hb Hf), app_nil_r. reflexivity. Qed.
 
+(* a built-in function: the same shape of code, the parameter names from the table of built-ins *)
+Definition bcall_code (ps : list string) (f : string) (args : list rval) : program :=
+  [I0 OC_CTX] ++ c_args ps args ++ [I1 OC_JSR (PStr f); I0 OC_END_CTX].
+Lemma c_rcall_builtin f args ps dd : builtin_params f builtin_table = Some ps ->
+  c_rval rt mt (RCall f args) dd = bcall_code ps f args ++
+    match dd with DPush => [I1 OC_PUSH (PReg R_RESULT)] | DReg R_RESULT => [] | _ => [I2 OC_MOVE (PReg R_RESULT) (dest_param dd)] end.
+Proof.
+  intros Hb. cbn [c_rval]. unfold bcall_code, mk_call, params_of_routine. rewrite Hb. f_equal. f_equal. f_equal.
+  generalize ps. induction args as [|a r IH]; intros qs; destruct qs as [|p qs]; cbn [c_args]; try reflexivity.
+  rewrite IH. reflexivity.
+Qed.
+Lemma c_use_builtin after u f args ps : builtin_params f builtin_table = Some ps -> use_ok u = true ->
+  c_stmt rt mt false after (use_stmt u (RCall f args)) = bcall_code ps f args ++ use_tail u.
+Proof.
+  intros Hb Hok. destruct u as [y|r|nl]; cbn [use_stmt use_tail use_ok] in *.
+  - change (c_stmt rt mt false after (SAssign y (RCall f args))) with (c_rval rt mt (RCall f args) (DVar y)). rewrite (c_rcall_builtin f args ps _ Hb). reflexivity.
+  - change (c_stmt rt mt false after (SReg r (RCall f args))) with (c_rval rt mt (RCall f args) (DReg r)). rewrite (c_rcall_builtin f args ps _ Hb).
+    destruct r; try discriminate; reflexivity.
+  - destruct nl.
+    + change (c_stmt rt mt false after (SPrintln (Some (RCall f args)))) with
+        (c_rval rt mt (RCall f args) (DReg R_RESULT) ++ [I2 OC_OUT (PIoOp IO_REGISTER) (PReg R_RESULT); I1 OC_OUT (PIoOp IO_PRINT); I1 OC_OUT (PIoOp IO_PRINT_END)]).
+      rewrite (c_rcall_builtin f args ps _ Hb), app_nil_r. reflexivity.
+    + change (c_stmt rt mt false after (SPrint (Some (RCall f args)))) with
+        (c_rval rt mt (RCall f args) (DReg R_RESULT) ++ [I2 OC_OUT (PIoOp IO_REGISTER) (PReg R_RESULT); I1 OC_OUT (PIoOp IO_PRINT)]).
+      rewrite (c_rcall_builtin f args ps _ Hb), app_nil_r. reflexivity.
+Qed.
+Lemma c_retcall_builtin after f args ps : builtin_params f builtin_table = Some ps ->
+  c_stmt rt mt false after (SReturn (Some (RCall f args))) = bcall_code ps f args ++ [I0 OC_RETURN].
+Proof. intros Hb. rewrite c_return, (c_rcall_builtin f args ps _ Hb), app_nil_r. reflexivity. Qed.
+Lemma yes_builtin f ps : builtin_params f builtin_table = Some ps -> is_builtin f = true.
+Proof.
+  unfold is_builtin, builtin_names. induction builtin_table as [|[k qs] t IH]; cbn [builtin_params map fst existsb]; [discriminate|].
+  rewrite (String.eqb_sym f k). destruct (String.eqb k f); cbn [orb]; intros H; [reflexivity|]. exact (IH H).
+Qed.
+
 Lemma exec_call f ss g args b : Sem.exec rt mt (S f) false ss (SCall g args b) = (let* (_, s1) := call rt mt f false ss g args in ROk SigNormal s1).
 Proof. reflexivity. Qed.
 
@@ -170,6 +209,9 @@ Qed.
 Lemma call_code_no_routine d f args : plain_args args (rd_params d) = true -> forallb not_routine (call_code d f args) = true.
 Proof. intros Ha. unfold call_code. rewrite !forallb_app, (c_args_no_routine args _ Ha). reflexivity. Qed.
 
+Lemma bcall_code_no_routine ps f args : plain_args args ps = true -> forallb not_routine (bcall_code ps f args) = true.
+Proof. intros Ha. unfold bcall_code. rewrite !forallb_app, (c_args_no_routine args _ Ha). reflexivity. Qed.
+
 Lemma simpleB_no_routine :
   (forall inl inr st, SimpleB inl inr st -> forall after, forallb not_routine (c_stmt rt mt false after st) = true) /\
   (forall inl inr l, SimpleBL inl inr l -> forall after, forallb not_routine (c_stmt rt mt false after (SBlock l)) = true).
@@ -181,6 +223,8 @@ Proof.
   - intros inl after. reflexivity.
   - intros inl inr f args b d Hb Hf Ha after. rewrite (c_callB after f args b d Hb Hf), !forallb_app, (c_args_no_routine args _ Ha). reflexivity.
   - intros inl inr u f args d Hb Hf Ha _ Hok after. rewrite (c_use after u f args d Hb Hf Hok), forallb_app, (call_code_no_routine d f args Ha), use_tail_no_routine. reflexivity.
+  - intros inl inr u f args ps Hb Ha Hok after. rewrite (c_use_builtin after u f args ps Hb Hok), forallb_app, (bcall_code_no_routine ps f args Ha), use_tail_no_routine. reflexivity.
+  - intros inl f args ps Hb Ha after. rewrite (c_retcall_builtin after f args ps Hb), forallb_app, (bcall_code_no_routine ps f args Ha). reflexivity.
   - intros inl f args d Hb Hf Ha _ after. rewrite (c_retcall after f args d Hb Hf), forallb_app, (call_code_no_routine d f args Ha). reflexivity.
   - intros inl inr c a Hc _ IHa after. rewrite c_if1_after, !forallb_app, (IHa after), (c_rval_no_routine rt mt c (DReg R_RESULT) Hc (plain_ok_result mt c Hc)). reflexivity.
   - intros inl inr c a b Hc _ IHa _ IHb after. rewrite c_if2_after, !forallb_app, (IHa _), (IHb after), (c_rval_no_routine rt mt c (DReg R_RESULT) Hc (plain_ok_result mt c Hc)). reflexivity.
@@ -391,6 +435,83 @@ Proof.
   rewrite E, Hb, Hf. reflexivity.
 Qed.
 
+(* a call of a built-in function: JSR computes the value, puts it into RESULT and comes back at once *)
+Lemma call_builtin_sem f ss g args ps : builtin_params g builtin_table = Some ps ->
+  call rt mt (S f) false ss g args =
+  (let* (vs, s1) := eval_args rt mt f false ss args in
+   match bind_params ps vs [] with Some p => lift_res (call_builtin g p) s1 | None => RErr (EInternal "arity") s1 end).
+Proof.
+  intros Hb.
+  assert (E : call rt mt (S f) false ss g args =
+    (let* (vs, s1) := eval_args rt mt f false ss args in
+     match builtin_params g builtin_table with
+     | Some ps => match bind_params ps vs [] with Some p => lift_res (call_builtin g p) s1 | None => RErr (EInternal "arity") s1 end
+     | None =>
+         match find_rdef rt g with
+         | Some d =>
+             match bind_params (rd_params d) vs [] with
+             | Some p =>
+                 match Sem.exec rt mt f false (s_with_locals s1 (Some p)) (rd_body d) with
+                 | ROk sig s2 => match sig with SigReturn v => ROk v (s_with_locals s2 (s_locals s1)) | _ => ROk VNone (s_with_locals s2 (s_locals s1)) end
+                 | RErr e s2 => RErr e s2
+                 | RFuel s2 => RFuel s2
+                 end
+             | None => RErr (EInternal "arity") s1
+             end
+         | None => RErr (EInternal "call of a routine that does not exist") s1
+         end
+     end)) by reflexivity.
+  rewrite E, Hb. reflexivity.
+Qed.
+
+Lemma builtin_runs f args ps : builtin_params f builtin_table = Some ps -> plain_args args ps = true ->
+  forall fuel im ss s x ss', sim ss s -> code_at im (m_pc s) (bcall_code ps f args) ->
+  call rt mt (S fuel) false ss f args = ROk x ss' ->
+  ss' = ss /\ exists n s', esteps n im s = Some (s', []) /\ sim ss s' /\ m_pc s' = m_pc s + zlength (bcall_code ps f args) /\
+                          (m_stack s', fr s') = (m_stack s, fr s) /\ rf_get (m_regs s') R_RESULT = Some x.
+Proof.
+  intros Hb Hpl fuel im ss s x ss' Hsim Hc He.
+  rewrite (call_builtin_sem fuel ss f args ps Hb) in He. unfold bcall_code in Hc |- *.
+  set (CA := c_args ps args) in *. set (kA := zlength CA) in *.
+  apply code_at_app in Hc. destruct Hc as [Hctx Hc]. cbn [code_at] in Hctx. destruct Hctx as [Hfc _]. rewrite zlength1 in Hc.
+  apply code_at_app in Hc. destruct Hc as [HcA Hc]. fold kA in Hc. cbn [code_at] in Hc. destruct Hc as [Hfj [Hfe _]].
+  destruct (eval_args rt mt fuel false ss args) as [vs sa|e sa|sa] eqn:Ea; cbn [sbind] in He; try discriminate.
+  set (F := m_frames s) in *.
+  set (s1 := advance (with_frames s (FCall [] false None :: F))).
+  assert (E1 : esteps 1 im s = Some (s1, [])) by (apply (estep1 im s _ _ _ Hfc); reflexivity).
+  assert (Hs1 : simr ss s1).
+  { destruct Hsim as [Hr Hfu Hg Hv Hst Hw Hu Hdf]. constructor; cbn [s1 advance with_pc with_frames with_vars m_regs m_globals m_frames m_world m_unnamed vars_of]; assumption. }
+  assert (HcA1 : code_at im (m_pc s1) CA) by exact HcA.
+  destruct (args_run args ps Hpl fuel im ss s1 [] F vs sa Hs1 eq_refl HcA1 Ea) as [Hsa (n2 & s2 & p1 & E2 & Hs2 & Hpc2 & Hfr2 & Hst2 & Hbind)]. subst sa.
+  fold CA in Hpc2. fold kA in Hpc2. rewrite Hbind in He.
+  assert (Hpc2' : m_pc s2 = m_pc s + 1 + kA) by (rewrite Hpc2; reflexivity).
+  destruct (call_builtin f p1) as [v|e] eqn:Ecb; cbn [lift_res] in He; [|discriminate]. injection He as Hx Hss. subst v ss'.
+  split; [reflexivity|].
+  set (ret := m_pc s2 + 1).
+  set (sR := with_regs (with_frames s2 (FCall p1 true (Some ret) :: F)) (rf_set (m_regs s2) R_RESULT x)).
+  set (s3 := with_pc (with_stack (with_frames sR F) (m_stack s2)) ret).
+  assert (E3 : esteps 1 im s2 = Some (s3, [])).
+  { assert (Hfj' : fetch im (m_pc s2) = Some (I1 OC_JSR (PStr f))) by (rewrite Hpc2'; exact Hfj).
+    apply (estep1 im s2 _ _ _ Hfj'). cbn [Machine.exec i_op i_p0 I1]. rewrite Hfr2, (yes_builtin f ps Hb), Ecb. cbn [set_reg].
+    fold ret. change (with_regs (with_frames s2 (FCall p1 true (Some ret) :: F)) (rf_set (m_regs (with_frames s2 (FCall p1 true (Some ret) :: F))) R_RESULT x)) with sR.
+    assert (HctR : call_tail (m_frames sR) = Some (ret, F)) by reflexivity.
+    rewrite (do_return_steps sR ret F HctR). reflexivity. }
+  set (s4 := advance s3).
+  assert (Hfe' : fetch im ret = Some (I0 OC_END_CTX)).
+  { unfold ret. rewrite Hpc2'. replace (m_pc s + 1 + kA + 1) with (m_pc s + 1 + kA + Z.of_nat 1) by lia. exact Hfe. }
+  assert (E4 : esteps 1 im s3 = Some (s4, [])) by (apply (estep1 im s3 _ _ _ Hfe'); reflexivity).
+  exists (1 + (n2 + (1 + 1)))%nat, s4. split; [change (@nil event) with ([] ++ ([] ++ ([] ++ @nil event))); eapply esteps_app; [exact E1|eapply esteps_app; [exact E2|eapply esteps_app; [exact E3|exact E4]]]|].
+  split.
+  { destruct Hs2 as [Hr Hfu Hg Hv Hw Hu Hdf]. destruct Hsim as [_ _ _ Hv0 Hst0 _ _ _].
+    constructor; cbn [s4 s3 sR advance with_pc with_stack with_frames with_regs with_vars m_regs m_globals m_frames m_world m_unnamed]; try assumption.
+    - apply agree_set_hidden; [exact Hr|reflexivity].
+    - rewrite rf_get_set_other; [exact Hdf|reflexivity]. }
+  split.
+  { change (m_pc s4) with (ret + 1). unfold ret. rewrite Hpc2'. unfold zlength. rewrite !app_length, !Nat2Z.inj_add. cbn [length]. unfold kA, zlength. lia. }
+  split; [change (m_stack s4, fr s4) with (m_stack s2, erase F); rewrite Hst2; reflexivity|].
+  cbn [s4 s3 sR advance with_pc with_stack with_frames with_regs m_regs]. apply rf_get_set_same.
+Qed.
+
 (* what the theorem, at a smaller budget, says of the bodies of the routines *)
 Definition body_sim (m : nat) : Prop :=
   forall f d, find_rdef rt f = Some d ->
@@ -568,6 +689,35 @@ Proof.
     destruct (use_tail_runs u im s1 s' x Hok Hs' (Hres Hmr) Hct') as (n2 & s2 & e2 & E2 & Hs2 & Hpc2 & Hsf2 & Ht2).
     left. split; [reflexivity|]. exists (n + n2)%nat, s2, (evs ++ e2). split; [eapply esteps_app; eassumption|]. split; [exact Hs2|].
     split; [rewrite Hpc2, Hpc; unfold zlength; rewrite app_length, Nat2Z.inj_add; lia|]. split; [rewrite Hsf2; exact Hsf|]. rewrite Ht2, Ht, app_assoc. reflexivity.
+  - (* the value of a built-in function, assigned, put into a register or printed *)
+    intros inl inr u f args ps Hb Hpl Hok after im ss s sig ss' fuel Hle Hload _ _ _ Hsim Hc He.
+    destruct fuel as [|f1]; [discriminate|]. rewrite exec_use in He. destruct f1 as [|f2]; [discriminate|]. rewrite eval_rval_S in He.
+    destruct f2 as [|fuel]; [discriminate|]. rewrite (c_use_builtin after u f args ps Hb Hok) in *.
+    destruct (call rt mt (S fuel) false ss f args) as [x s1|e s1|s1] eqn:Ecall; cbn [sbind] in He; try discriminate. injection He as Hsig Hss. subst sig ss'.
+    apply code_at_app in Hc. destruct Hc as [Hcc Hct].
+    destruct (builtin_runs f args ps Hb Hpl fuel im ss s x s1 Hsim Hcc Ecall) as [Hs1 (n & s' & E & Hs' & Hpc & Hsf & Hres)]. subst s1.
+    assert (Hct' : code_at im (m_pc s') (use_tail u)) by (rewrite Hpc; exact Hct).
+    destruct (use_tail_runs u im ss s' x Hok Hs' Hres Hct') as (n2 & s2 & e2 & E2 & Hs2 & Hpc2 & Hsf2 & Ht2).
+    left. split; [reflexivity|]. exists (n + n2)%nat, s2, ([] ++ e2). split; [eapply esteps_app; eassumption|]. split; [exact Hs2|].
+    split; [rewrite Hpc2, Hpc; unfold zlength; rewrite app_length, Nat2Z.inj_add; lia|]. split; [rewrite Hsf2; exact Hsf|]. exact Ht2.
+  - (* return [builtin ...] *)
+    intros inl f args ps Hb Hpl after im ss s sig ss' fuel Hle Hload _ Hir _ Hsim Hc He.
+    destruct fuel as [|f1]; [discriminate|]. rewrite exec_return in He. destruct f1 as [|f2]; [discriminate|]. rewrite eval_rval_S in He.
+    destruct f2 as [|fuel]; [discriminate|]. rewrite (c_retcall_builtin after f args ps Hb) in *.
+    destruct (call rt mt (S fuel) false ss f args) as [x s1|e s1|s1] eqn:Ecall; cbn [sbind] in He; try discriminate. injection He as Hsig Hss. subst sig ss'.
+    apply code_at_app in Hc. destruct Hc as [Hcc Hr]. cbn [code_at] in Hr. destruct Hr as [Hfr _].
+    destruct (builtin_runs f args ps Hb Hpl fuel im ss s x s1 Hsim Hcc Ecall) as [Hs1 (n & s' & E & Hs' & Hpc & Hsf & Hres)]. subst s1.
+    destruct (fr_eq_facts s' s Hsf) as [Hsk1 [Hct1 [_ Hrs1]]].
+    destruct (Hir eq_refl) as (ret & F & Hct).
+    assert (Hct' : call_tail (m_frames s') = Some (ret, F)) by (rewrite Hct1; exact Hct).
+    set (s2 := advance (with_pc (with_stack (with_frames s' F) (ret_stack (m_frames s') (m_stack s'))) ret)).
+    assert (E2 : esteps 1 im s' = Some (s2, [])).
+    { assert (Hfr' : fetch im (m_pc s') = Some (I0 OC_RETURN)) by (rewrite Hpc; exact Hfr).
+      apply (estep1 im s' _ _ _ Hfr'). cbn [Machine.exec i_op I0]. rewrite (do_return_steps s' ret F Hct'). reflexivity. }
+    right. right. split; [reflexivity|]. exists x. split; [reflexivity|]. exists ret, F. split; [exact Hct|].
+    exists (n + 1)%nat, s2, ([] ++ []). split; [eapply esteps_app; eassumption|].
+    split; [split; [destruct Hs' as [Hr1 Hf1 Hg1 Hv1 Hst1 Hw1 Hu1 Hdf1]; repeat split; assumption|exact Hres]|].
+    split; [reflexivity|]. split; [reflexivity|]. split; [exact Hrs1|]. rewrite app_nil_r. reflexivity.
   - (* return [f ...]: the call, then RETURN with the value still in RESULT *)
     intros inl f args d Hb Hf Hpl Hmr after im ss s sig ss' fuel Hle Hload _ Hir _ Hsim Hc He.
     destruct fuel as [|f1]; [discriminate|]. rewrite exec_return in He. destruct f1 as [|f2]; [discriminate|]. rewrite eval_rval_S in He.
@@ -1436,6 +1586,30 @@ Proof.
   exact Hto.
 Qed.
 
+(* the value of a built-in function (round, floor, sqrt, ...) taken directly by a statement *)
+Theorem builtin_value_simulation :
+  forall rt mt, bodies_ok rt mt -> forall u f args ps, builtin_params f builtin_table = Some ps ->
+  plain_args mt args ps = true -> use_ok u = true ->
+  forall after im ss s sig ss' fuel, routines_loaded rt mt im -> sim ss s ->
+  code_at im (m_pc s) (c_stmt rt mt false after (use_stmt u (RCall f args))) ->
+  Sem.exec rt mt fuel false ss (use_stmt u (RCall f args)) = ROk sig ss' ->
+  sig = SigNormal /\
+  exists n s' evs, esteps n im s = Some (s', evs) /\ sim ss' s' /\ m_pc s' = m_pc s + zlength (c_stmt rt mt false after (use_stmt u (RCall f args))) /\
+                   (m_stack s', fr s') = (m_stack s, fr s) /\ rev (s_trace ss') = rev (s_trace ss) ++ evs.
+Proof.
+  intros rt mt Hbodies u f args ps Hb Hpl Hok after im ss s sig ss' fuel Hload Hsim Hc He.
+  assert (Hd : in_depth_ok false s) by (intros H; discriminate).
+  assert (Hsig : sig = SigNormal).
+  { destruct fuel as [|fuel]; [discriminate|]. rewrite exec_use in He.
+    destruct (eval_rval rt mt fuel false ss (RCall f args)) as [v s1|e s1|s1]; cbn [sbind] in He; try discriminate. injection He as <- _. reflexivity. }
+  subst sig. split; [reflexivity|].
+  assert (Hir : in_ret_ok false (m_frames s)) by (intros H; discriminate).
+  assert (Hin : in_loop_ok false after) by (intros H; discriminate).
+  destruct (proj1 (simpleB_simulation rt mt Hbodies) false false _ (B_builtinuse rt mt false false u f args ps Hb Hpl Hok) after im ss s SigNormal ss' fuel Hload
+              Hin Hir Hd Hsim Hc He) as [[_ Hto]|[[H _]|[_ [v [H _]]]]]; try discriminate.
+  exact Hto.
+Qed.
+
 (* a boolean test for the covered statements (sound for SimpleB / SimpleBL) *)
 Section CheckB.
 Variable rt : rtable.
@@ -1445,6 +1619,7 @@ Definition callval_b (v : rval) : bool :=
   match v with
   | RCall g args =>
       match builtin_params g builtin_table, find_rdef rt g with
+      | Some ps, _ => plain_args mt args ps
       | None, Some d => plain_args mt args (rd_params d) && must_return (rd_body d)
       | _, _ => false
       end
@@ -1487,25 +1662,30 @@ Lemma simpleB_b_sound fuel : forall inl inr st, simpleB_b fuel inl inr st = true
 Proof.
   induction fuel as [|f IH]; intros inl inr st H; [discriminate|]. cbn [simpleB_b] in H.
   destruct (simple_atom mt st) eqn:Ea; [apply B_simple; apply S_atom; exact Ea|]. cbn [orb] in H.
-  assert (Hcv : forall v, callval_b v = true -> exists g args d, v = RCall g args /\ builtin_params g builtin_table = None /\ find_rdef rt g = Some d /\
-                                                   plain_args mt args (rd_params d) = true /\ must_return (rd_body d) = true).
-  { intros v Hv. destruct v as [l|l|m|m|y|r|e|g args]; try discriminate. cbn [callval_b] in Hv.
-    destruct (builtin_params g builtin_table) eqn:Eb; [discriminate|]. destruct (find_rdef rt g) as [d|] eqn:Ef; [|discriminate].
-    apply andb_true_iff in Hv. destruct Hv as [Hp Hm]. exists g, args, d. repeat split; assumption. }
+  assert (Hcv : forall v, callval_b v = true -> exists g args, v = RCall g args /\
+             ((exists ps, builtin_params g builtin_table = Some ps /\ plain_args mt args ps = true) \/
+              (exists d, builtin_params g builtin_table = None /\ find_rdef rt g = Some d /\ plain_args mt args (rd_params d) = true /\ must_return (rd_body d) = true))).
+  { intros v Hv. destruct v as [l|l|m|m|y|r|e|g args]; try discriminate. cbn [callval_b] in Hv. exists g, args. split; [reflexivity|].
+    destruct (builtin_params g builtin_table) as [ps|] eqn:Eb; [left; exists ps; split; [reflexivity|exact Hv]|]. destruct (find_rdef rt g) as [d|] eqn:Ef; [|discriminate].
+    apply andb_true_iff in Hv. destruct Hv as [Hp Hm]. right. exists d. repeat split; assumption. }
+  assert (Huse : forall u v, callval_b v = true -> use_ok u = true -> SimpleB rt mt inl inr (use_stmt u v)).
+  { intros u v Hv Hok. destruct (Hcv v Hv) as (g & args & -> & [(ps & Hb & Hp)|(d & Hb & Hf & Hp & Hm)]).
+    - exact (B_builtinuse rt mt inl inr u g args ps Hb Hp Hok).
+    - exact (B_calluse rt mt inl inr u g args d Hb Hf Hp Hm Hok). }
   destruct st; try discriminate.
   - (* register setting with the value of a call *)
-    apply andb_true_iff in H. destruct H as [Hr Hv]. destruct (Hcv v Hv) as (g & args & d & -> & Hb & Hf & Hp & Hm).
-    exact (B_calluse rt mt inl inr (UReg r) g args d Hb Hf Hp Hm Hr).
+    apply andb_true_iff in H. destruct H as [Hr Hv]. exact (Huse (UReg r) v Hv Hr).
   - (* assignment of the value of a call *)
-    destruct (Hcv v H) as (g & args & d & -> & Hb & Hf & Hp & Hm).
-    exact (B_calluse rt mt inl inr (UAssign x) g args d Hb Hf Hp Hm eq_refl).
+    exact (Huse (UAssign x) v H eq_refl).
   - (* call *)
     destruct (builtin_params f0 builtin_table) eqn:Eb; [discriminate|]. destruct (find_rdef rt f0) as [d|] eqn:Ef; [|discriminate].
     exact (B_call rt mt inl inr f0 args bracketed d Eb Ef H).
   - (* return *)
     destruct v as [v|].
     + apply andb_true_iff in H. destruct H as [Hr Hv]. subst inr. apply orb_true_iff in Hv. destruct Hv as [Hv|Hv]; [apply B_return; exact Hv|].
-      destruct (Hcv v Hv) as (g & args & d & -> & Hb & Hf & Hp & Hm). exact (B_callret rt mt inl g args d Hb Hf Hp Hm).
+      destruct (Hcv v Hv) as (g & args & -> & [(ps & Hb & Hp)|(d & Hb & Hf & Hp & Hm)]).
+      * exact (B_builtinret rt mt inl g args ps Hb Hp).
+      * exact (B_callret rt mt inl g args d Hb Hf Hp Hm).
     + subst inr. apply B_return0.
   - destruct s2 as [b|].
     + apply andb_true_iff in H. destruct H as [H Hb]. apply andb_true_iff in H. destruct H as [Hc Ha].
@@ -1529,10 +1709,8 @@ Proof.
       apply (B_lights rt mt inl inr _ _ _ _ _ (lin_form rt mt _ _ _ Hs Hw)). apply IH. exact Ha.
   - subst inl. apply B_break.
   - (* print the value of a call *)
-    destruct v as [v|]; [|discriminate]. destruct (Hcv v H) as (g & args & d & -> & Hb & Hf & Hp & Hm).
-    exact (B_calluse rt mt inl inr (UPrint false) g args d Hb Hf Hp Hm eq_refl).
-  - destruct v as [v|]; [|discriminate]. destruct (Hcv v H) as (g & args & d & -> & Hb & Hf & Hp & Hm).
-    exact (B_calluse rt mt inl inr (UPrint true) g args d Hb Hf Hp Hm eq_refl).
+    destruct v as [v|]; [|discriminate]. exact (Huse (UPrint false) v H eq_refl).
+  - destruct v as [v|]; [|discriminate]. exact (Huse (UPrint true) v H eq_refl).
   - apply B_block. clear Ea. induction ss as [|x r IHr]; [constructor|]. cbn [forallb] in H. apply andb_true_iff in H. destruct H as [Hx Hr].
     constructor; [apply IH; exact Hx|apply IHr; exact Hr].
 Qed.
